@@ -459,4 +459,82 @@ func TestC03Dates(t *testing.T) {
 	}
 }
 
-func init() { reg("C03.det", checkC03) }
+// ---- what one value renders as does not depend on what was rendered before it -------------------
+
+type C03SwapCase struct {
+	A    *E     `json:"a"` // two context values
+	B    *E     `json:"b"`
+	Expr string `json:"expr"` // an expression in which @ stands for the variable
+}
+
+// checkC03Swap: {{ A-expr }}#{{ B-expr }} and {{ B-expr }}#{{ A-expr }} print the same two texts
+// (a result remembered from the previous evaluation must not leak into the next one).
+func checkC03Swap(c C03SwapCase) error {
+	var ctx Ctx
+	ctx.Set("A", c.A)
+	ctx.Set("B", c.B)
+	ea, eb := strings.ReplaceAll(c.Expr, "@", "A"), strings.ReplaceAll(c.Expr, "@", "B")
+	var outs [2][]string
+	for i, src := range []string{"{{ " + ea + " }}#{{ " + eb + " }}", "{{ " + eb + " }}#{{ " + ea + " }}"} {
+		qr := OneShot{Eng: EngSpec{Templates: map[string]string{"main": src}}, Call: "render", Name: "main", Ctx: ctx}
+		r := runOneShot(qr)
+		if i == 1 {
+			// the opposite order in a process that has evaluated nothing before (a result remembered
+			// process-wide would otherwise answer both orders alike)
+			var err error
+			if r, err = pristine(qr); err != nil {
+				return fmt.Errorf("harness: %v", err)
+			}
+		}
+		if r.Panic != "" || r.Err {
+			return fmt.Errorf("render failed: %v; source %s", r, q(src))
+		}
+		outs[i] = strings.Split(string(r.Out), "#")
+		if len(outs[i]) != 2 {
+			return fmt.Errorf("harness: separator in output %s", q(string(r.Out)))
+		}
+	}
+	if outs[0][0] != outs[1][1] || outs[0][1] != outs[1][0] {
+		return fmt.Errorf("%s of %s and %s: evaluated in this order the texts are %s and %s, in the opposite order (fresh process) %s and %s", c.Expr, PrintE2(c.A), PrintE2(c.B), q(outs[0][0]), q(outs[0][1]), q(outs[1][1]), q(outs[1][0]))
+	}
+	return nil
+}
+
+func TestC03Swap(t *testing.T) {
+	r := NewRec(t, "C03", "exhaustive: pairs of values that agree in what a careless cache key would look at (the same instant in two time zones, equal numbers of different Go types, strings equal up to case or normalisation, lists and maps of equal length) under 14 filters, evaluated in one order in the test process and in the opposite order in a fresh process; non-trivial = always")
+	defer r.Flush()
+	r.SetExhaustive()
+	var pairs [][2]*E
+	for _, u := range []int64{1709647629, 978307200, 1735689599, 0} {
+		for _, z := range [][2]string{{"", "+330"}, {"-480", "+840"}, {"+60", ""}, {"+345", "+330"}} {
+			a, b := ZTime(u), ZTime(u)
+			a.M, b.M = z[0], z[1]
+			pairs = append(pairs, [2]*E{a, b})
+		}
+	}
+	timePairs := len(pairs)
+	pairs = append(pairs, [2]*E{Int(3), ZT(Int(3), "float64")}, [2]*E{Int(65), Str("65")}, [2]*E{Str("abc"), Str("ABC")}, [2]*E{Str("e\u0301"), Str("\u00e9")}, [2]*E{Str("1.0"), Str("1.00")},
+		[2]*E{List(Int(1), Int(2)), List(Int(2), Int(1))}, [2]*E{List(Int(1), Int(2)), ZT(List(Int(1), Int(2)), "[]int")}, [2]*E{Hash([]string{"a"}, []*E{Int(1)}), Hash([]string{"b"}, []*E{Int(1)})},
+		[2]*E{Int(-1), ZT(Int(255), "uint8")}, [2]*E{Bool(true), Int(1)}, [2]*E{Null(), Str("")})
+	dateExprs := []string{"@|date('Y-m-d H:i:s')", "@|date('H')", "@|date('D, d M Y g:i a')", "@|date('c')", "@|date('U')"}
+	exprs := []string{"@|json_encode", "@|length", "@|upper", "@|lower", "@|capitalize", "@|default('d')", "@|e", "@ ~ ''", "@|join(',')", "@|first", "@|keys|join", "@|reverse|join", "@|sort|join", "@ is iterable ? 'it' : @|abs"}
+	for i, p := range pairs {
+		list := exprs
+		if i < timePairs {
+			list = dateExprs
+		}
+		for _, ex := range list {
+			c := C03SwapCase{A: p[0], B: p[1], Expr: ex}
+			r.Case(ex+PrintE2(p[0])+PrintE2(p[1]), true, ex+" "+PrintE2(p[0])+" / "+PrintE2(p[1]))
+			// expressions that are errors for a pair are outside this check (both orders fail alike)
+			if err := checkC03Swap(c); err != nil && !strings.HasPrefix(err.Error(), "render failed") {
+				r.FailEnum(t, "C03.swap", c, err)
+			}
+		}
+	}
+}
+
+func init() {
+	reg("C03.det", checkC03)
+	reg("C03.swap", checkC03Swap)
+}
